@@ -175,8 +175,10 @@ func ruleGFee(c *Ctx) {
 		"DataFeePaid":  "((p1.TotalDataBytes * uint64(" + data + ".Satoshis)) / uint64(" + data + ".Bytes))",
 		"TotalFeePaid": "(alloc#0.DataFeePaid + alloc#0.StdFeePaid)", // operands of + and * in sorted order
 	}
+	// the total may be read back from the two fields or be written out in full (the fields are write-once)
+	full := "(" + want["DataFeePaid"] + " + " + want["StdFeePaid"] + ")"
 	for f, w := range want {
-		ok := got[f] == w
+		ok := got[f] == w || (f == "TotalFeePaid" && got[f] == full)
 		c.Check(ok, "G-fee", "Tx.feesPaid/"+f, fn.Pos(), f+" = "+w, fmt.Sprintf("feesPaid computes %s as %s; specified floor arithmetic is %s", f, got[f], w))
 	}
 	for f := range got {
